@@ -23,6 +23,7 @@ RULE = ("sequences of length 1, 9, 10, 11, 49, 50, 51, 99, 100, 101 and random u
 RULE += ("; added after the mutation rounds: histories of 25-45 updates; the caller editing its dictionary after acceptance; empty mappings; updates through a second handle on the same backend object; the first cases of every shard are judged again at its end")
 RULE += ("; round 5: the object's own (or another object's) live palette dictionary handed back, with or without an edited entry")
 RULE += ("; round 8: palette updates on shuffled copies (nothing / everything / all but one position frozen) and their parents")
+RULE += ("; round 9: colour names with trailing NULs / blanks / other case; multi-letter keys containing the missing residue; a dictionary equal to the stock palette")
 EXHAUSTIVE = {"quick": False, "thorough": False}
 ASSUMPTIONS = [
     "warning filters that escalate warnings to errors, and palette values that are str subclasses with their own __str__ (e.g. str-mixin Enum members), are not driven",
